@@ -474,3 +474,20 @@ func pow10TableGen(f *ssa.Function) ([]*big.Int, string) {
 	}
 	return out, ""
 }
+
+// litFunc: the function a literal's function-valued element denotes: a function literal, or the name of a
+// declared function.
+func litFunc(w *World, pkgPath string, l *Lit) *ssa.Function {
+	if l == nil {
+		return nil
+	}
+	for _, f := range w.ModuleFuncs(pkgPath) {
+		switch {
+		case l.Kind == "func" && l.Func != nil && f.Syntax() == ast.Node(l.Func):
+			return f
+		case l.Kind == "ident" && l.Obj != nil && f.Object() != nil && types.Object(f.Object()) == l.Obj:
+			return f
+		}
+	}
+	return nil
+}
